@@ -1,1 +1,211 @@
-//! Reference models (DESIGN.md §6.5). Filled in with world B.
+//! Reference models (DESIGN.md §6.5): exact-arithmetic oracles for the client law, the bound
+//! formula and the updater state machine. Transcribed from README.md, clock-bound-d/README.md,
+//! FSM.png and the property texts — not from the code under test.
+
+use crate::util::PRecord;
+
+pub const NS: i128 = 1_000_000_000;
+
+#[derive(Clone, Copy, Debug, PartialEq, Eq)]
+pub enum Status {
+    Unknown = 0,
+    Synchronized = 1,
+    FreeRunning = 2,
+}
+
+impl Status {
+    pub fn from_i32(i: i32) -> Option<Status> {
+        match i {
+            0 => Some(Status::Unknown),
+            1 => Some(Status::Synchronized),
+            2 => Some(Status::FreeRunning),
+            _ => None,
+        }
+    }
+}
+
+#[derive(Clone, Copy, Debug, PartialEq, Eq)]
+pub enum ErrKind {
+    Syscall = 1,
+    NotInitialized = 2,
+    Malformed = 3,
+    Causality = 4,
+}
+
+pub fn ts_ns(s: i64, ns: i64) -> i128 {
+    s as i128 * NS + ns as i128
+}
+
+/// Status decay (C06): what a client may report for a stored status and a monotonic reading.
+pub fn decay(stored: Status, mono: i128, as_of: i128, void_after: i128) -> Status {
+    match stored {
+        Status::Unknown => Status::Unknown,
+        s => {
+            if mono < as_of + 5 * NS {
+                s
+            } else if mono < void_after {
+                Status::FreeRunning
+            } else {
+                Status::Unknown
+            }
+        }
+    }
+}
+
+/// Exact half-width of the interval (C05): stored bound plus drift times age, truncated to ns.
+pub fn half_width(bound: i64, drift_ppb: u32, age_ns: i128) -> i128 {
+    bound as i128 + (age_ns * drift_ppb as i128).div_euclid(NS)
+}
+
+// ---------------------------------------------------------------------------------------------
+// chrony's 32-bit float: exact value as a dyadic rational
+// ---------------------------------------------------------------------------------------------
+
+/// value = m * 2^e exactly, m odd or zero.
+#[derive(Clone, Copy, Debug)]
+pub struct Dyadic {
+    pub m: i128,
+    pub e: i32,
+}
+
+pub fn dyadic_of_f64(v: f64) -> Dyadic {
+    if v == 0.0 || !v.is_finite() {
+        return Dyadic { m: 0, e: 0 };
+    }
+    let bits = v.to_bits();
+    let sign: i128 = if bits >> 63 != 0 { -1 } else { 1 };
+    let exp = ((bits >> 52) & 0x7ff) as i32;
+    let frac = bits & ((1u64 << 52) - 1);
+    let (mut m, mut e) = if exp == 0 { (frac as i128, -1074) } else { ((frac | (1u64 << 52)) as i128, exp - 1075) };
+    while m != 0 && m & 1 == 0 {
+        m >>= 1;
+        e += 1;
+    }
+    Dyadic { m: sign * m, e }
+}
+
+pub const SCALE_BITS: i32 = 64;
+
+/// value in ns times 2^(SCALE_BITS+1), or None when outside the exactly representable window.
+fn scaled_ns_x2(d: Dyadic) -> Option<i128> {
+    if d.m == 0 {
+        return Some(0);
+    }
+    let sh = SCALE_BITS + 1 + d.e;
+    if !(0..=72).contains(&sh) || d.m.abs() >= (1 << 26) {
+        return None;
+    }
+    Some(d.m * NS * (1i128 << sh))
+}
+
+#[derive(Clone, Copy, Debug)]
+pub struct BoundExpect {
+    /// the exact sum rounded up to whole ns
+    pub ceil: i128,
+    /// true when the exact value is so close to an integer that double-precision evaluation may
+    /// legitimately land on either side
+    pub ambiguous: bool,
+}
+
+/// README formula: |offset| + root dispersion + root delay / 2, in ns, rounded up (C07).
+pub fn bound_formula(offset: f64, root_delay: f64, root_dispersion: f64) -> Option<BoundExpect> {
+    let o = scaled_ns_x2(dyadic_of_f64(offset))?.abs();
+    let d = scaled_ns_x2(dyadic_of_f64(root_delay))?;
+    let e = scaled_ns_x2(dyadic_of_f64(root_dispersion))?;
+    // scale 2^(S+1): o and e carry an extra factor 2 already (x2), delay/2 is d/2 at that scale
+    let unit: i128 = 1i128 << (SCALE_BITS + 1);
+    let n = o.checked_add(e)?.checked_add(d / 2)?;
+    // d is a multiple of 2 at this scale by construction (shift >= 0 of scale S+1), so d/2 is exact
+    let ceil = n.div_euclid(unit) + if n.rem_euclid(unit) != 0 { 1 } else { 0 };
+    let r = n.rem_euclid(unit);
+    let dist = r.min(unit - r); // distance to the nearest integer, in units of 2^-(S+1) ns
+    let sum_ns = (n / unit).abs().max(1);
+    // tolerance: 1e-6 ns or the accumulated rounding error of a handful of f64 operations
+    let tol_abs = (unit / 1_000_000).max(sum_ns.saturating_mul(unit >> 48));
+    Some(BoundExpect { ceil, ambiguous: dist <= tol_abs })
+}
+
+// ---------------------------------------------------------------------------------------------
+// updater model (C08, C09, C10)
+// ---------------------------------------------------------------------------------------------
+
+#[derive(Clone, Copy, Debug, PartialEq, Eq)]
+pub enum MsgKind {
+    Data,
+    ChronyGrace,
+    ChronyGone,
+    PhcGrace,
+    PhcGone,
+}
+
+/// Classification of a tracking report (C10). `None` inside the gap between the exact
+/// eight-interval threshold and its truncation to whole seconds (either answer is accepted).
+pub fn classify_report(leap: u16, ref_time_ns: i128, now_rt_ns: i128, interval_s: f64) -> Option<Status> {
+    match leap {
+        0..=2 => {
+            if ref_time_ns > now_rt_ns {
+                return Some(Status::Unknown);
+            }
+            let age = now_rt_ns - ref_time_ns;
+            let thr_exact_ns = {
+                let d = dyadic_of_f64(interval_s * 8.0);
+                // 8*interval is exact in f64 (power-of-two scaling)
+                if d.m == 0 {
+                    0
+                } else if d.e >= 0 {
+                    d.m * (1i128 << d.e.min(60)) * NS
+                } else if -d.e <= 90 {
+                    (d.m * NS) >> (-d.e).min(120)
+                } else {
+                    0
+                }
+            };
+            let thr_floor_ns = ((interval_s * 8.0).max(0.0).floor() as i128) * NS;
+            if age > thr_exact_ns.max(thr_floor_ns) {
+                Some(Status::FreeRunning)
+            } else if age <= thr_floor_ns.min(thr_exact_ns) {
+                Some(Status::Synchronized)
+            } else {
+                None
+            }
+        }
+        3 => Some(Status::FreeRunning),
+        _ => Some(Status::Unknown),
+    }
+}
+
+/// Daemon-side memory between polls, per the documentation.
+#[derive(Clone, Debug)]
+pub struct UpdaterModel {
+    pub bound: i64,
+    pub as_of: (i64, i64),
+    pub seen_sync: bool,
+    pub drift: u32,
+}
+
+impl UpdaterModel {
+    pub fn new(drift: u32) -> UpdaterModel {
+        UpdaterModel { bound: 0, as_of: (0, 0), seen_sync: false, drift }
+    }
+
+    /// Apply one poll outcome; returns the record that must be published.
+    /// `sync_sample`: Some((bound, as_of)) when the outcome is a synchronised report.
+    pub fn apply(&mut self, latest: Status, sync_sample: Option<(i64, (i64, i64))>) -> PRecord {
+        if let Some((b, a)) = sync_sample {
+            self.bound = b;
+            self.as_of = a;
+            self.seen_sync = true;
+        }
+        let status = if self.seen_sync { latest } else { Status::Unknown };
+        PRecord {
+            as_of_s: self.as_of.0,
+            as_of_ns: self.as_of.1,
+            void_s: self.as_of.0 + 1000,
+            void_ns: 0,
+            bound: self.bound,
+            drift: self.drift,
+            reserved: 0,
+            status: status as i32,
+        }
+    }
+}
